@@ -229,6 +229,48 @@ def gen_topology_spec(rng, small=False, build_file=True):
     return spec
 
 
+SCENARIOS = ("same-name-two-templates", "same-name-template-and-volume", "infeasible-first")
+
+
+def force_scenario(rng, spec, scenario):
+    """small structured shapes that every run must contain (the random stream meets them only now and then):
+    two molecule types whose residues share a NAME but not the content, with build-file entries for that name;
+    a residue that cannot be optimised as the first residue of the first molecule"""
+    kinds = spec["kinds"]
+    if scenario == "infeasible-first":
+        tri = gen_kind(random.Random(0), kinds[0]["resname"], "BCDEFG"[0], vs_ok=False)
+        tri.update(shape="infeasible", nreal=3, bonds=[[0, 1, 0.2], [1, 2, 0.2], [0, 2, 0.6]], constraints=[], angles=[],
+                   impropers=[], vsites=[],
+                   atoms=[dict(name="B%d" % (i + 1), atype="P", mass=72.0) for i in range(3)])
+        kinds[0] = tri
+        for mol in spec["moltypes"]:
+            mol["links"] = [[a, min(i, 2) if mol["residues"][a] == 0 else i, b, min(j, 2) if mol["residues"][b] == 0 else j]
+                            for a, i, b, j in mol["links"]]
+        if 0 not in spec["moltypes"][0]["residues"]:
+            spec["moltypes"][0]["residues"][0] = 0
+            spec["moltypes"][0]["links"] = [[a, 0, b, 0] for a, _, b, _ in spec["moltypes"][0]["links"]]
+        spec["build"] = None
+        return spec
+    base = 0
+    other = gen_kind(rng, kinds[base]["resname"], "X", vs_ok=False)
+    while wl_hash(kind_graph(other)) == wl_hash(kind_graph(kinds[base])):
+        other = gen_kind(rng, kinds[base]["resname"], "X", vs_ok=False)
+    other["alias_of"] = base
+    kinds.append(other)
+    k2 = len(kinds) - 1
+    spec["moltypes"] = [dict(name="M0", residues=[base, base], links=[[0, 0, 1, 0]], count=1),
+                        dict(name="M1", residues=[k2], links=[], count=rng.choice([1, 2]))]
+    coords = lambda kind: [[dy(rng, -1, 1), dy(rng, -1, 1), dy(rng, -1, 1)] for _ in kind["atoms"]]
+    blocks = [["volume", kinds[base]["resname"], round(rng.uniform(0.2, 1.5), 3)],
+              ["template", base, coords(kinds[base]), True]]
+    if scenario == "same-name-two-templates":
+        blocks.append(["template", k2, coords(kinds[k2]), True])
+    rng.shuffle(blocks)
+    spec["build"] = blocks
+    spec["skip_filter"] = False
+    return spec
+
+
 def gen_build_file(rng, spec):
     """blocks of a build file: ('volume', resname, v) and ('template', kind index, coords)"""
     kinds = spec["kinds"]
@@ -475,6 +517,8 @@ def system_case(ctx, replay):
     import polyply.src.build_file_parser as bfp
     rng = random.Random(replay["seed"])
     spec = gen_topology_spec(rng, small=replay.get("small", False))
+    if replay.get("scenario"):
+        spec = force_scenario(rng, spec, replay["scenario"])
     kinds = spec["kinds"]
     try:
         topology, _ = build_topology(spec)
@@ -797,7 +841,7 @@ def system_case(ctx, replay):
                  stream="system", residues=nres if nres <= 3 else "4+", molecule_types=len(spec["moltypes"]),
                  build_file=has_bf, skip_filter=spec["skip_filter"], generated=len(generated) if len(generated) <= 3 else "4+",
                  user_templates=len(bf_templates), captured=records is not None,
-                 same_name_other_content=any("alias_of" in k for k in kinds))
+                 same_name_other_content=any("alias_of" in k for k in kinds), scenario=replay.get("scenario", "random"))
         for k in {r["kind"] for r in flat}:
             ctx.tally(kind_shape=kinds[k]["shape"])
     return reqs, judge
@@ -1039,6 +1083,9 @@ def gen_replays(ctx):
         out.append(dict(stream="verdict", seed=rng.randint(0, 10 ** 9), stub=rng.random() < 0.6))
     for _ in range(ctx.budget(30, 600)):
         out.append(dict(stream="volume", seed=rng.randint(0, 10 ** 9)))
+    for scenario in SCENARIOS:
+        for _ in range(ctx.budget(2, 20)):
+            out.append(dict(stream="system", seed=rng.randint(0, 10 ** 9), scenario=scenario))
     for _ in range(ctx.budget(40, 1800)):
         out.append(dict(stream="system", seed=rng.randint(0, 10 ** 9)))
     probe = sorted(s for s in FINDING_SHAPES if enabled(s))
